@@ -39,6 +39,11 @@ func HotYears() []int {
 	add(1640, 1650)
 	add(1895, 2105)
 	add(9990, 9998)
+	// the century years that are leap years in the Julian calendar only (the standard library's proleptic Gregorian
+	// calendar has no 29 February there), and the year of the earliest and latest solstice-related extremes
+	for _, y := range []int{100, 200, 300, 500, 600, 700, 900, 1000, 1100, 1300, 1400, 1500} {
+		ys = append(ys, y)
+	}
 	return ys
 }
 
